@@ -281,6 +281,8 @@ fn point_code(p: &str) -> i64 {
         "!sem.close" => 94,
         "!sem.is_closed" => 95,
         "!sem.available_permits" => 96,
+        "!atomic.load" => 97,
+        "!atomic.update" => 98,
         _ => 99,
     }
 }
